@@ -65,6 +65,11 @@ fn repl_polys(repl: &[(u64, FuncSpec)]) -> BTreeMap<u64, Poly> {
 
 fn apply_order(inst: &mut v1::Instance, order: &Option<Vec<u64>>, x: &mut Exec) {
     if let Some(o) = order {
+        // every replaced variable must have been recorded as a dependency by now
+        if let Some(k) = o.iter().find(|k| !inst.decision_variable_dependency.contains_key(k)) {
+            x.violate("C04:instance:dependency-not-recorded", format!("after the substitutions the instance has no dependency entry for the replaced variable {k} (entries: {:?})", { let mut v: Vec<&u64> = inst.decision_variable_dependency.keys().collect(); v.sort(); v }));
+            return;
+        }
         let entries: Vec<(u64, v1::Function)> = o.iter().map(|k| (*k, inst.decision_variable_dependency[k].clone())).collect();
         let (m, tries) = exact::force_order(&entries, o);
         inst.decision_variable_dependency = m;
